@@ -175,4 +175,199 @@ theorem C04_p2wsh_auctioneer_only (lt sq : Nat) (sigOK : Bytes → Bytes → Boo
   · exact h1 h
   · rw [h] at h2; exact absurd h2 (by simp)
 
+/-! ## determineWitnessType and the lock time spendAccount sets -/
+
+theorem determineWitnessType_spec (v st e best : Nat) :
+    determineWitnessType v st e best =
+      (if v = 1 ∨ v = 2 then (if st = Gen.C04.stateExpired ∨ e ≤ best then .expiryTaproot else .muSig2Taproot)
+       else (if st = Gen.C04.stateExpired ∨ e ≤ best then .expiryWitness else .multiSigWitness)) := by
+  by_cases h1 : v = 1
+  · subst h1
+    by_cases hc : st = Gen.C04.stateExpired ∨ e ≤ best <;>
+    simp [determineWitnessType, determineWitnessTypeWith, Gen.C04.determineWitnessTypeTable, versionMatches,
+        lookupNat, Gen.C04.accountVersionValues, expiredCondText, wtypeByName, hc]
+  by_cases h2 : v = 2
+  · subst h2
+    by_cases hc : st = Gen.C04.stateExpired ∨ e ≤ best <;>
+    simp [determineWitnessType, determineWitnessTypeWith, Gen.C04.determineWitnessTypeTable, versionMatches,
+        lookupNat, Gen.C04.accountVersionValues, expiredCondText, wtypeByName, hc]
+  · have h1' : ¬ 1 = v := fun h => h1 h.symm
+    have h2' : ¬ 2 = v := fun h => h2 h.symm
+    by_cases hc : st = Gen.C04.stateExpired ∨ e ≤ best <;>
+    simp [determineWitnessType, determineWitnessTypeWith, Gen.C04.determineWitnessTypeTable, versionMatches,
+        lookupNat, Gen.C04.accountVersionValues, expiredCondText, wtypeByName, hc, h1, h2, h1', h2']
+
+/-- **C04, lock-time choice.**  With `wt = determineWitnessType(account, bestHeight)`:
+* `wt` is an expiry type exactly when `State == StateExpired ∨ bestHeight ≥ expiry`;
+* for an expiry type `spendAccount` (action CLOSE) sets `LockTime = bestHeight`, for a multisig type `0`;
+  the account input created by `createSpendTx` has sequence 0;
+* for heights below `LockTimeThreshold` that lock time satisfies the script's CLTV exactly when
+  `bestHeight ≥ expiry`. -/
+theorem C04_locktime_choice (v st e best : Nat) (hb : best < LockTimeThreshold) :
+    let wt := determineWitnessType v st e best
+    (wtypeIsExpiry wt = true ↔ (st = Gen.C04.stateExpired ∨ e ≤ best)) ∧
+    (wtypeIsExpiry wt = true → spendLockTime wt true best = some best) ∧
+    (wtypeIsExpiry wt = false → ∀ isClose, spendLockTime wt isClose best = some 0) ∧
+    createSpendTxSequence = some 0 ∧
+    (CLTV best 0 e ↔ e ≤ best) := by
+  have hseq : createSpendTxSequence = some 0 := by decide
+  have hcl : CLTV best 0 e ↔ e ≤ best := by
+    simp only [CLTV, LockTimeThreshold, MaxTxInSequenceNum] at *
+    constructor
+    · intro h; exact h.2.1
+    · intro h; exact ⟨⟨fun _ => by omega, fun _ => hb⟩, h, by decide⟩
+  simp only [determineWitnessType_spec]
+  refine ⟨?_, ?_, ?_, hseq, hcl⟩
+  · by_cases hv : v = 1 ∨ v = 2 <;> by_cases hc : st = Gen.C04.stateExpired ∨ e ≤ best <;>
+      simp [hv, hc, wtypeIsExpiry, Gen.C04.witnessTypeIsExpiryTable, wtypeByName]
+  · by_cases hv : v = 1 ∨ v = 2 <;> by_cases hc : st = Gen.C04.stateExpired ∨ e ≤ best <;>
+      simp [hv, hc, wtypeIsExpiry, Gen.C04.witnessTypeIsExpiryTable, wtypeByName, spendLockTime,
+        spendLockTimeWith, Gen.C04.spendAccountLockTimeTable]
+  · by_cases hv : v = 1 ∨ v = 2 <;> by_cases hc : st = Gen.C04.stateExpired ∨ e ≤ best <;>
+      simp [hv, hc, wtypeIsExpiry, Gen.C04.witnessTypeIsExpiryTable, wtypeByName, spendLockTime,
+        spendLockTimeWith, Gen.C04.spendAccountLockTimeTable]
+
+/-- **The stated corner**: an account marked `StateExpired` whose expiry is above the best height handed to
+`determineWitnessType` takes the expiry path with `LockTime = bestHeight < expiry`, which the script rejects. -/
+theorem C04_locktime_expired_state_corner (v e best : Nat) (hlt : best < e) :
+    let wt := determineWitnessType v Gen.C04.stateExpired e best
+    wtypeIsExpiry wt = true ∧ spendLockTime wt true best = some best ∧ ¬ CLTV best 0 e := by
+  simp only [determineWitnessType_spec]
+  refine ⟨?_, ?_, ?_⟩
+  · by_cases hv : v = 1 ∨ v = 2 <;> simp [hv, wtypeIsExpiry, Gen.C04.witnessTypeIsExpiryTable, wtypeByName]
+  · by_cases hv : v = 1 ∨ v = 2 <;>
+      simp [hv, wtypeIsExpiry, Gen.C04.witnessTypeIsExpiryTable, wtypeByName, spendLockTime,
+        spendLockTimeWith, Gen.C04.spendAccountLockTimeTable]
+  · intro h; have := h.2.1; omega
+
+example : determineWitnessType 1 3 100 100 = .expiryTaproot ∧ determineWitnessType 0 3 100 99 = .multiSigWitness ∧
+    determineWitnessType 77 4 100 5 = .expiryWitness := by decide
+
+/-! ## classification by the spend handler -/
+
+/-- **C04, classification.**  Every witness Pool builds is classified by `manager.HandleAccountSpend`'s switch
+(regenerated case order) as the path it takes: `SpendMultiSig` / `SpendMuSig2Taproot` as cooperative,
+`SpendExpiry` / `SpendExpiryTaproot` as expiry.  Hypotheses: the auctioneer signature is non-empty, the
+MuSig2 signature has 64 bytes, the trader's Schnorr signature is non-empty, the control block is
+`0xc0|0xc1 ‖ 32 bytes`, and (taproot expiry only) `expiry < 2^23`. -/
+theorem C04_classification_agrees (e : Nat) (tk ak tkx σt σa σ key : Bytes) (v : UInt8)
+    (htk : tk.length = 33) (hak : ak.length = 33) (hx : tkx.length = 32) (he : e < 2 ^ 32)
+    (hσa : σa ≠ []) (hσ : σ.length = 64) (hσt : σt ≠ []) (hkey : key.length = 32)
+    (hv : v.toNat = 0xc0 ∨ v.toNat = 0xc1) :
+    (spendMultiSig (accountWitnessScript e tk ak) σt σa).map classify = some .multisig ∧
+    (spendExpiry (accountWitnessScript e tk ak) σt).map classify = some .expiry ∧
+    (spendMuSig2Taproot σ).map classify = some .multisig ∧
+    (e < 2 ^ 23 → (spendExpiryTaproot (taprootExpiryScript e tkx) σt (v :: key)).map classify = some .expiry) := by
+  have hS := accountWitnessScript_eq e tk ak htk hak he
+  have hT := taprootExpiryScript_eq e tkx hx he
+  have hTl := taprootExpiryScript_length e tkx hx he
+  have hL := pushNumBytes_length e he
+  refine ⟨?_, ?_, ?_, ?_⟩
+  · cases σa with
+    | nil => exact absurd rfl hσa
+    | cons a as =>
+      simp [spendMultiSig, witnessFromLayout, Gen.C04.spendMultiSigLayout, classify, classifyWith,
+        Gen.C04.handleAccountSpendCases, classifierByName, isExpirySpend, isTaprootExpirySpend, hasAnnex, hS,
+        isMultiSigSpend, casePath]
+      intro _ _ _
+      cases List.head? σt <;> cases List.getLast? σt <;> simp
+  · simp [spendExpiry, witnessFromLayout, Gen.C04.spendExpiryLayout, classify, classifyWith,
+      Gen.C04.handleAccountSpendCases, classifierByName, isExpirySpend, casePath]
+  · simp [spendMuSig2Taproot, witnessFromLayout, Gen.C04.spendMuSig2TaprootLayout, classify, classifyWith,
+      Gen.C04.handleAccountSpendCases, classifierByName, isExpirySpend, isTaprootExpirySpend, hasAnnex,
+      isMultiSigSpend, isTaprootMultiSigSpend, casePath, hσ]
+  · intro h23
+    have hne : taprootExpiryScript e tkx ≠ [] := by rw [hT]; simp
+    have hhead : (taprootExpiryScript e tkx).head? = some 0x20 := by rw [hT]; simp
+    have hlast : (taprootExpiryScript e tkx).getLast? = some 0xb1 := by rw [hT, List.getLast?_append]; simp
+    have hlen : 36 ≤ (taprootExpiryScript e tkx).length ∧ (taprootExpiryScript e tkx).length ≤ 39 := by
+      rw [hTl, hL]; repeat' split
+      all_goals omega
+    cases σt with
+    | nil => exact absurd rfl hσt
+    | cons t ts =>
+      have hv1 : v.toNat ≠ 0x50 := by rcases hv with h | h <;> omega
+      simp [spendExpiryTaproot, witnessFromLayout, Gen.C04.spendExpiryTaprootLayout, classify, classifyWith,
+        Gen.C04.handleAccountSpendCases, classifierByName, isExpirySpend, isTaprootExpirySpend, hasAnnex,
+        casePath, hv1, hkey, hhead, hlast, Gen.C04.taprootExpiryMinScriptLen, Gen.C04.TaprootExpiryScriptSize]
+      intro hcon
+      exfalso
+      have := hcon (decide_eq_false (by have := hlen.1; omega)) hlen.2
+      rcases hv with h | h
+      · exact this.1 h
+      · exact this.2 h
+
+/-- **Why the bound `expiry < 2^23` is needed**: from `2^23` on the script number takes 4 bytes, the leaf script
+40 bytes (> `TaprootExpiryScriptSize`), `IsTaprootExpirySpend` is false and the handler's second case
+(`IsMultiSigSpend`: three elements, first non-empty) classifies the trader-only spend as cooperative.
+(Outside the property's quantifier; heights ≥ 8 388 608.) -/
+theorem C04_classification_boundary (e : Nat) (tkx σt key : Bytes) (v : UInt8)
+    (hx : tkx.length = 32) (he : e < 2 ^ 32) (h23 : 2 ^ 23 ≤ e) (hσt : σt ≠ []) (hkey : key.length = 32)
+    (hv : v.toNat = 0xc0 ∨ v.toNat = 0xc1) :
+    (spendExpiryTaproot (taprootExpiryScript e tkx) σt (v :: key)).map classify = some .multisig := by
+  have hTl := taprootExpiryScript_length e tkx hx he
+  have hL := pushNumBytes_length e he
+  have hlen : 39 < (taprootExpiryScript e tkx).length := by
+    rw [hTl, hL]; repeat' split
+    all_goals omega
+  cases σt with
+  | nil => exact absurd rfl hσt
+  | cons t ts =>
+    have hv1 : v.toNat ≠ 0x50 := by rcases hv with h | h <;> omega
+    have hgt : ¬ (taprootExpiryScript e tkx).length ≤ 39 := by omega
+    simp [spendExpiryTaproot, witnessFromLayout, Gen.C04.spendExpiryTaprootLayout, classify, classifyWith,
+      Gen.C04.handleAccountSpendCases, classifierByName, isExpirySpend, isTaprootExpirySpend, hasAnnex,
+      casePath, hv1, hkey, Gen.C04.taprootExpiryMinScriptLen, Gen.C04.TaprootExpiryScriptSize, hgt, isMultiSigSpend]
+
+/-! ## signatures made for other parameters -/
+
+theorem accountWitnessScript_inj (e e' : Nat) (tk ak tk' ak' : Bytes)
+    (htk : tk.length = 33) (hak : ak.length = 33) (htk' : tk'.length = 33) (hak' : ak'.length = 33)
+    (he : e < 2 ^ 32) (he' : e' < 2 ^ 32)
+    (h : accountWitnessScript e tk ak = accountWitnessScript e' tk' ak') : e = e' ∧ tk = tk' ∧ ak = ak' := by
+  have p := parse_accountWitnessScript e tk ak htk hak he
+  rw [h, parse_accountWitnessScript e' tk' ak' htk' hak' he'] at p
+  simp only [accountInstrs, Option.some.injEq, List.cons.injEq, Instr.push.injEq, and_true, true_and] at p
+  obtain ⟨h1, h2, h3⟩ := p
+  have d := (numOK_scriptNum e he).dec
+  rw [← h3, (numOK_scriptNum e' he').dec] at d
+  simp only [Except.ok.injEq, Int.natCast_inj] at d
+  exact ⟨d.symm, h1.symm, h2.symm⟩
+
+/-- **C04, signatures for another batch key, secret or expiry are invalid** (ideal signatures).
+`sign pk msg` is the only string that verifies under `pk` for `msg` and is injective; the trader key tweak
+`tweakT batchKey secret` is injective (for the fixed base key), the auctioneer tweak `tweakA` is a function of
+the tweaked trader key; `sighash` (fixed transaction and input) is injective in the committed script.
+Then a trader signature made for `(batchKey', secret', expiry') ≠ (batchKey, secret, expiry)` does not verify
+in the real output's script, and no witness carrying it in the trader slot spends the output. -/
+theorem C04_wrong_params_invalid
+    (sign : Bytes → Bytes → Bytes) (hsign : ∀ pk m pk' m', sign pk m = sign pk' m' → pk = pk' ∧ m = m')
+    (sighash : Bytes → Bytes) (hsh : ∀ s s', sighash s = sighash s' → s = s')
+    (tweakT : Bytes → Bytes → Bytes) (htw : ∀ b s b' s', tweakT b s = tweakT b' s' → b = b' ∧ s = s')
+    (htl : ∀ b s, (tweakT b s).length = 33)
+    (tweakA : Bytes → Bytes) (hal : ∀ t, (tweakA t).length = 33)
+    (b s b' s' : Bytes) (e e' : Nat) (he : e < 2 ^ 32) (he' : e' < 2 ^ 32)
+    (hne : ¬ (b' = b ∧ s' = s ∧ e' = e)) (lt sq : Nat) (σa : Bytes) (hσa : σa.length ≤ MaxScriptElementSize)
+    (hσl : (sign (tweakT b' s') (sighash (accountWitnessScript e' (tweakT b' s') (tweakA (tweakT b' s'))))).length
+      ≤ MaxScriptElementSize) :
+    let tk := tweakT b s
+    let S := accountWitnessScript e tk (tweakA tk)
+    let tk' := tweakT b' s'
+    let S' := accountWitnessScript e' tk' (tweakA tk')
+    let idealOK : Bytes → Bytes → Bool := fun pk σ => decide (σ = sign pk (sighash S))
+    idealOK tk (sign tk' (sighash S')) = false ∧
+    verifyP2WSH (stdCtx false lt sq idealOK) (Sha256.sha256 S) [σa, sign tk' (sighash S'), S] ≠ .ok () := by
+  intro tk S tk' S' idealOK
+  have hbad : idealOK tk (sign tk' (sighash S')) = false := by
+    simp only [idealOK, decide_eq_false_iff_not]
+    intro heq
+    obtain ⟨hk, hm⟩ := hsign _ _ _ _ heq
+    obtain ⟨hb, hs⟩ := htw _ _ _ _ hk
+    have hS := hsh _ _ hm
+    have := accountWitnessScript_inj e' e tk' (tweakA tk') tk (tweakA tk) (htl _ _) (hal _) (htl _ _) (hal _)
+      he' he hS
+    exact hne ⟨hb, hs, this.1⟩
+  refine ⟨hbad, ?_⟩
+  exact C04_p2wsh_auctioneer_only lt sq idealOK e tk (tweakA tk) σa _ (htl _ _) (hal _) he hσa hσl (Or.inr hbad)
+
 end Pool.C04
